@@ -51,22 +51,27 @@ def handle (op : String) (j : Json) : Except String Json := do
   match op with
   | "write" =>
     let fmt ← getStr j "fmt"
-    let mode ← getStr j "mode"
-    let first ← getNat j "first"
     let cuts ← getNatList j "cuts"
     let rowsJ ← getArr j "rows"
     let rows ← rowsJ.mapM (fun r => do
       let cs ← r.getArr?
       cs.toList.mapM cellOf)
     let pieces := cutAt rows 0 cuts
+    let sessJ ← getArr j "sessions"
+    let sessRaw ← sessJ.mapM (fun sj => do
+      let m ← getStr sj "m"
+      let st ← getBool sj "s"
+      let k ← getNat sj "k"
+      pure (m, st, k))
+    -- hand the pieces to the sessions in order
+    let sess : List Sess := (sessRaw.foldl (fun (acc : List Sess × List (List Row)) msk =>
+      (acc.1 ++ [⟨if msk.1 == "w" then Mode.write else Mode.append, msk.2.1, acc.2.take msk.2.2⟩], acc.2.drop msk.2.2))
+      ([], pieces)).1
     let hdr : C02.Bytes := if isVcf fmt then Gen.C03.vcfDefaultHeader else []
     let dump := dumpModel fmt
-    let bytes :=
-      if mode == "plain" || mode == "gzip" then writeAll hdr dump false (initState .write) pieces
-      else if mode == "stream" then writeStream hdr dump false (initState .write) pieces
-      else session hdr dump (mode == "append_gzip") pieces (min first pieces.length)
+    let bytes := runAll hdr dump [] sess
     let m := Json.mkObj [("bytes", txt bytes)]
-    let nh : Nat := if isVcf fmt && (mode != "stream" || pieces.any (· ≠ [])) then 1 else 0
+    let nh : Nat := if isVcf fmt && sess.flatMap Sess.calls != [] then 1 else 0
     let s := Json.mkObj [("body", txt (dumpCanon fmt rows)), ("headers", nat nh)]
     pure (reply m (some s))
   | _ => throw s!"C03: unknown op {op}"
